@@ -16,7 +16,8 @@ labels = sorted(set(re.findall(r"^\s+([a-z]+[0-9]*_?[a-z0-9_]*):", alg, re.M)))
 local = [l for l in labels if l.endswith("_l")]
 m = re.search(r"vars == << (.*?) >>", t, re.S)
 vs = [v.strip() for v in m.group(1).replace("\n", " ").split(",")]
-unch = ", ".join(v for v in vs if v != "now")
+tickvar = "cvx" if "cvx' = [u" in t else "now"
+unch = ", ".join(v for v in vs if v != tickvar)
 t = re.sub(r"LocalLabels == \{.*?\}", lambda _: "LocalLabels == {%s}" % ", ".join('"%s"' % l for l in local), t, count=1, flags=re.S)
 t = re.sub(r"(Tick ==.*?UNCHANGED <<).*?(>>)", lambda mm: mm.group(1) + unch + mm.group(2), t, count=1, flags=re.S)
 if "MuLabels ==" in t:
